@@ -14,12 +14,16 @@ import (
 type logStoreFactory struct {
 	inner quickfix.MessageStoreFactory
 	note  func(string)
+	made  func(quickfix.MessageStore) // told about every store created (the harness may set its creation time)
 }
 
 func (f logStoreFactory) Create(id quickfix.SessionID) (quickfix.MessageStore, error) {
 	st, err := f.inner.Create(id)
 	if err != nil {
 		return nil, err
+	}
+	if f.made != nil {
+		f.made(st)
 	}
 	return &logStore{MessageStore: st, note: f.note}, nil
 }
